@@ -11,7 +11,12 @@
 
    S3 lock (Model/Lock.v): the conditional-write lock over a strongly consistent object store with
    atomic requests, fresh ETags, a skew-free clock, request faults (no effect / permanent / reply
-   lost after the effect), client deaths, renewals at arbitrary moments.
+   lost after the effect), client deaths, renewals at arbitrary moments, and an ENVIRONMENT that may
+   change at any moment (event SEnv): the process's local time zone (TZ / tzset / DST switch) and the
+   rendering of LastModified in head replies (aware at any utcoffset, or naive).  The age test is the
+   kernel regenerated from S3LockProvider._try_takeover_expired (Gen/GenLockAge.v, translator/
+   gen_lockage.py) over the datetime model Model/PyTime.v; every S3 theorem below quantifies over all
+   event lists and hence over all zone / rendering histories.
 
    C19_s3_mutex is NOT a theorem of the code as it stands: release() is GET-then-unconditional-
    DELETE, and a releaser paused past its lease deletes its successor's lock.  The full statement is
@@ -20,7 +25,8 @@
    C19_s3_mutex_partial proves mutual exclusion for every run in which no release's DELETE lands
    after the releaser's own lease lapsed (ghost flag late_delete = false). *)
 From Coq Require Import ZArith NArith List Bool.
-Require Import DS.Model.FLock DS.Model.Lock DS.Gen.GenLockConst DS.Proofs.FLockProofs DS.Proofs.LockProofs.
+Require Import DS.Model.PyTime DS.Model.FLock DS.Model.Lock DS.Gen.GenLockConst DS.Gen.GenLockAge
+               DS.Proofs.FLockProofs DS.Proofs.LockAgeProofs DS.Proofs.LockProofs DS.Proofs.LockEnvProofs.
 Import ListNotations.
 Open Scope Z_scope.
 
@@ -108,6 +114,63 @@ Theorem C19_s3_takeover_after_lease : forall (cd : bool) (lease rsleep : Z) (evs
   snow s - lm o > lease /\ lm o' = snow s.
 Proof. exact s3_takeover_after_lease. Qed.
 Print Assumptions C19_s3_takeover_after_lease.
+
+(* The lease-age kernel of the source, for EVERY process zone, every instant and every utcoffset the
+   reply's LastModified is written in: the age is the difference of the two instants (zone and offsets
+   cancel); a naive LastModified makes the expression raise. *)
+Theorem C19_s3_age_any_zone_any_rendering : forall (zone now inst lease : Z) (r : option Z),
+  takeover_age zone now (dt_render r inst) lease = match r with Some _ => Some (now - inst) | None => None end.
+Proof. exact takeover_age_render. Qed.
+Print Assumptions C19_s3_age_any_zone_any_rendering.
+
+(* ... and in the lock machine, in any state (any zone, any rendering carried by the head reply): the
+   client goes on to the conditional PUT exactly when the object's age exceeds the lease at that instant;
+   with a naive LastModified acquire() ends with the exception -- no request, no change of belief (fails
+   closed, never a success). *)
+Theorem C19_s3_age_test_in_any_environment :
+  forall (cd : bool) (lease rsleep : Z) (s : sstate) (c : N) (f : fault) (j l : Z) (e : N) (r : option Z),
+  s_alive (scl s c) = true -> s_pc (scl s c) = QAge l e r ->
+  let s' := sstep cd lease rsleep s (SStep c f j) in
+  obj s' = obj s /\ snow s' = snow s /\ is_locked (scl s' c) = is_locked (scl s c)
+  /\ match r with
+     | Some _ => s_pc (scl s' c) = (if snow s - l <=? lease then QTimeChk else QTake l e)
+                 /\ s_res (scl s' c) = s_res (scl s c)
+     | None => s_pc (scl s' c) = QIdle /\ s_res (scl s' c) = SRaised
+     end.
+Proof. exact s3_age_test. Qed.
+Print Assumptions C19_s3_age_test_in_any_environment.
+
+(* The environment is invisible.  For EVERY event list whose environment events render LastModified as an
+   aware datetime (at any utcoffset; any process zone; changing at any moments): erasing those events leaves
+   the lock object, the ETag counter, the clock, every client's record and program counter and the whole
+   request / result trace unchanged (env_sim, Model/Lock.v) -- by simulation over every step of the machine. *)
+Theorem C19_s3_environment_irrelevant : forall (cd : bool) (lease rsleep : Z) (evs : list sevent),
+  forallb aware_ev evs = true ->
+  env_sim (srun cd lease rsleep sinit evs) (srun cd lease rsleep sinit (strip_env evs)).
+Proof. exact s3_environment_irrelevant. Qed.
+Print Assumptions C19_s3_environment_irrelevant.
+
+(* Hence two processes in ANY two zone / rendering histories that are given the same calls, steps, faults,
+   renewals, clock advances and deaths behave identically: what one lock client does can never depend on TZ. *)
+Theorem C19_s3_same_in_every_environment : forall (cd : bool) (lease rsleep : Z) (evs1 evs2 : list sevent),
+  forallb aware_ev evs1 = true -> forallb aware_ev evs2 = true -> strip_env evs1 = strip_env evs2 ->
+  env_sim (srun cd lease rsleep sinit evs1) (srun cd lease rsleep sinit evs2).
+Proof. exact s3_same_in_every_environment. Qed.
+Print Assumptions C19_s3_same_in_every_environment.
+
+(* Why the kernel is regenerated rather than assumed: an age taken from the FIELDS of LastModified read as
+   local time (time.mktime(lm.timetuple()), a naive .timestamp()) is the true age plus the process's UTC
+   offset; in any zone east of UTC by more than the lease, a lock written at this very instant fails the
+   `age <= lease` guard, i.e. would be taken over at age 0. *)
+Theorem C19_s3_local_field_age_is_zone_shifted : forall (zone now inst : Z),
+  age_by_local_fields zone now (dt_aware inst 0) = (now - inst) + zone.
+Proof. exact age_by_local_fields_shifted. Qed.
+Print Assumptions C19_s3_local_field_age_is_zone_shifted.
+
+Theorem C19_s3_local_field_age_premature : forall (zone lease now : Z),
+  0 <= lease < zone -> takeover_keeps (age_by_local_fields zone now (dt_aware now 0)) lease = false.
+Proof. exact age_by_local_fields_premature. Qed.
+Print Assumptions C19_s3_local_field_age_premature.
 
 (* Once the lock object is somebody else's (a takeover landed) and as long as `a` does not call
    acquire() again: the object never becomes a's, no is_held() of a returns True, no renewal of a has any
@@ -199,9 +262,10 @@ Definition ex_flock : list fevent :=
   [ECallAcquire 0%N true 1000; EStep 0%N; EStep 0%N; EStep 0%N;
    ECallAcquire 1%N true 1000; EStep 1%N; EStep 1%N].
 
-(* A acquires at 0 and renews at 20 s; at 90 s B takes over; A then asks is_held() *)
+(* in a process 9 h east of UTC, replies rendering LastModified at -8 h:
+   A acquires at 0 and renews at 20 s; at 90 s B takes over; A then asks is_held() *)
 Definition ex_s3 : list sevent :=
-  [SCall 0%N (CAcquire 2000); SStep 0%N FNone 300; SStep 0%N FNone 300; STick 20000; SRenew 0%N FNone;
+  [SEnv 32400000 (Some (-28800000)); SCall 0%N (CAcquire 2000); SStep 0%N FNone 300; SStep 0%N FNone 300; STick 20000; SRenew 0%N FNone;
    STick 70000; SCall 1%N (CAcquire 2000); SStep 1%N FNone 300; SStep 1%N FNone 300; SStep 1%N FNone 300;
    SStep 1%N FNone 300].
 
@@ -215,7 +279,8 @@ Example C19_nonvacuous :
       let s' := sstep false default_lease_ms held_retry_sleep_ms s (SStep 1%N FNone 300) in
       late_delete s' = false
       /\ (exists o o', obj s = Some o /\ obj s' = Some o' /\ owner o = 0%N /\ owner o' = 1%N /\ lm o = 20000 /\ snow s = 90000)
-      /\ holder_live default_lease_ms s' 1%N /\ is_locked (scl s' 0%N) = true /\ foreign s' 0%N).
+      /\ holder_live default_lease_ms s' 1%N /\ is_locked (scl s' 0%N) = true /\ foreign s' 0%N)
+  /\ forallb aware_ev ex_s3 = true /\ length (strip_env ex_s3) = 11%nat /\ length ex_s3 = 12%nat.
 Proof.
   split; [exact kernel_grant_excl|]. split; [exact kernel_grant_free|].
   split.
